@@ -363,8 +363,22 @@ class AtomCtx:
 
     def run(self, fault_args, content=None, extra_files=None, script=None):
         """one run in a fresh scratch directory -> dict (content / extra_files: the directory as an earlier run left it)"""
-        d = tempfile.mkdtemp(prefix="r", dir=self.base)
+        d0 = d = tempfile.mkdtemp(prefix="r", dir=self.base)
+        want = getattr(self, "pathlen", None)
+        if want:
+            # the credential file lives at a path of exactly `want` characters (the longest path the system accepts has
+            # PATH_MAX - 1 = 4095): nested directories with names of up to 255 characters
+            rest = want - len(d) - len("/passwd.json")
+            while rest > 0:
+                n = min(255, rest - 1)
+                if rest - 1 - n == 1:
+                    n -= 1              # never leave a remainder that cannot hold "/" plus one character
+                d = d + "/" + "d" * n
+                rest -= n + 1
+            os.makedirs(d)
         path = os.path.join(d, "passwd.json")
+        if want and len(path) != want:
+            raise HarnessProblem("could not build a path of %d characters (got %d)" % (want, len(path)))
         try:
             with open(path, "wb") as fh:
                 fh.write(self.spec["content"].encode("utf-8") if content is None else content)
@@ -391,7 +405,7 @@ class AtomCtx:
                 pr = probe(path, self.pairs)
             return dict(rc=rc, ev=ev, err=err, after=after, leftovers=leftovers, left=left, probe=pr)
         finally:
-            shutil.rmtree(d, ignore_errors=True)
+            shutil.rmtree(d0, ignore_errors=True)
 
     def recover(self, run, state, res, desc):
         """the daemon is started again on the directory a crashed update left (credential file plus whatever else lies there) and the
@@ -629,7 +643,12 @@ def eval_fault_run(ctx, f, res):
                 res.stats["obs/error-reported-but-new-password-live-in-memory"] += 1
                 res.stats["obs/error-reported-but-new-password-live-in-memory:disk-" + state] += 1
             if f.get("fail") is None and not f.get("short"):
-                v("authz/authorised-change-refused:fault-free")
+                if getattr(ctx, "pathlen", None) and ctx.pathlen > 4080:
+                    # at the longest paths no second name fits next to the file: an update that is refused (and leaves everything
+                    # as it was - judged above) is as good as one that is carried out
+                    res.stats["obs/longest-path:change-refused-without-fault"] += 1
+                else:
+                    v("authz/authorised-change-refused:fault-free")
     if run["leftovers"]:
         res.stats["obs/extra-files-left-in-directory:%s" % ("after-crash" if crashing else "no-crash")] += 1
     if crashing and run["rc"] == 42 and state in ("old", "new"):
@@ -649,6 +668,7 @@ def _baseline(case, res):
     base = tempfile.mkdtemp(prefix="c20fs-", dir=os.environ.get("TMPDIR") or "/tmp")
     try:
         ctx = AtomCtx(spec, op, base)
+        ctx.pathlen = case.get("pathlen")
         # the unchanged file must itself load and hold the OLD set
         d = os.path.join(base, "orig")
         os.mkdir(d)
@@ -679,6 +699,7 @@ def _atom(case, res):
     base = tempfile.mkdtemp(prefix="c20fs-", dir=os.environ.get("TMPDIR") or "/tmp")
     try:
         ctx = AtomCtx(spec, op, base)
+        ctx.pathlen = case.get("pathlen")
         last = None
         for f in case["faults"]:
             run = eval_fault_run(ctx, f, res)
@@ -1067,6 +1088,10 @@ def fs_results(tier):
             ops = ops[:2]
         for i, _ in enumerate(ops):
             base_cases.append(dict(kind="c20fs/baseline", seed=seed, shape=s, variant=v, op=i, sim=False))
+    # the same update with the credential file at the longest paths the system accepts (names derived from the path may not fit)
+    s0, v0 = shapes[0]
+    for plen in ((4095, 4094, 4091) if tier == "quick" else (4095, 4094, 4093, 4092, 4091, 4090, 4088, 4000, 3000)):
+        base_cases.append(dict(kind="c20fs/baseline", seed=seed, shape=s0, variant=v0, op=0, sim=False, pathlen=plen))
     authz_cases = []
     for s, v in shapes:
         if len(specs[(s, v)]["users"]) >= 2:
